@@ -4,6 +4,7 @@
 set -e
 cd "$(dirname "$0")"
 python3 tools/translate.py
+(cd tools && python3 effects.py --lean ../lean/GroupbyVerif/Generated/Effects.lean)
 cd lean
 lake build 2>&1 | grep -v "^warning\|^Note\|^Hint\|^\s*\[apply\]\|^$" | tail -20
 test -x .lake/build/bin/gbdriver
